@@ -17,6 +17,8 @@ InstrCands == {Ins(o, 0, 0) : o \in {3, 15, 16}}
         \cup {Ins(o, a, 0) : o \in {1, 4, 5, 6, 9, 10, 11, 12, 13, 14}, a \in AVals}
         \cup {Ins(o, a, n) : o \in {2, 7, 8}, a \in AVals, n \in NVals}
 Rep(x, n) == [i \in 1..n |-> x]
+\* n copies of the byte sequence u (a multi-byte character)
+RepU(u, n) == [i \in 1..(n * Len(u)) |-> u[((i - 1) % Len(u)) + 1]]
 StrCands == { <<>>, <<97>>, <<195,169>>, <<228,184,150>>, <<240,159,152,128>>, <<0>>, <<10, 13, 9>>, <<34, 92, 126>>,
               <<206,187,58>>, Rep(120, 255), Rep(120, 256), Rep(97, 127) \o <<195,169>> \o Rep(98, 128), <<239,187,191,97>> }
 IntCands == {0, 1, -1, 127, 128, 255, 256, -256, 65535, 65536, -65536, 16777215, 16777216, -16777216, MAXI, MINI, -2147483647, 305419896}
